@@ -143,7 +143,10 @@ def gen_skeletons(ctx):
     ctx.obligation("translator:all-guard-skeletons-translated", not errors, "; ".join(errors))
     txt = "(* GENERATED on every check run from /repo's source by tools/props/c08_flow.py — do not edit. *)\n"
     txt += "From Coq Require Import String List.\nFrom S2T Require Import C08.Flow.\nImport ListNotations.\nOpen Scope string_scope.\n\n"
-    txt += "Definition skeletons : list (string * gs) := [\n" + ";\n".join(f'  ("{n}", {t})' for n, t in out) + "\n].\n"
+    # strict = the skeleton of a whole generator/callee: with the detector true it must END WITH AN EXCEPTION
+    # (no silent return); the per-member body of the ZIP pass-1 loop legitimately `continue`s for directories
+    txt += "Definition skeletons : list (string * bool * gs) := [\n" + ";\n".join(
+        f'  ("{n}", {"false" if "#pass1-member" in n else "true"}, {t})' for n, t in out) + "\n].\n"
     txt += f"\n(* the with-block of the ZIP route up to (excluding) the second loop *)\nDefinition zip_prefix : gs := {zip_prefix}.\n"
     ctx.gen_write("Gen/C08Skeletons.v", txt)
     return errors
@@ -206,6 +209,31 @@ def c_opt_strs(x) -> str:
     return "None" if x is None else "(Some " + coq_list([coq_str(n) for n in x]) + ")"
 
 
+# ============================================================================ environment
+def env_cases(ctx, e2e):
+    """A sample of the generated pairs (every mechanism, both verdicts) must give the same outcome under DEBUG
+    logging, in a worker thread, under other time zones and in another cwd (common.env_sweep)."""
+    from sharepoint2text.parsing import router
+    rng = ctx.rng
+    by_kind = {}
+    for s in e2e.sample:
+        by_kind.setdefault(s[0], []).append(s)
+    picked = []
+    per = ctx.n(14, 60)
+    for kind, lst in sorted(by_kind.items()):
+        rng.shuffle(lst)
+        picked += lst[:per]
+
+    def outcome(case):
+        kind, key, ext, data = case
+        fn = router.get_extractor("x" + ext)
+        o = run_gen(fn, data, path="x" + ext)
+        return (o.cls, o.n)
+    restore_pristine_pypdf()
+    common.env_sweep(ctx, "extract-outcome", outcome, picked, describe=lambda c: f"{c[0]}:{c[1]} ({len(c[3])} bytes)")
+    restore_pristine_pypdf()
+
+
 # ============================================================================ running the implementation
 class Outcome:
     def __init__(self, cls, n, msg=""):
@@ -261,11 +289,28 @@ class E2E:
     """End-to-end oracle over the three entry points."""
     def __init__(self, ctx, tmpdir):
         self.ctx, self.tmp = ctx, tmpdir
+        self.sample = []
 
     def check(self, key, kind, fn, ext, data, expect_enc, cli=True):
         ctx = self.ctx
         o1 = run_gen(fn, data, path="x" + ext)
         o2 = run_read_file(self.tmp, "case" + ext, data)
+        # second occurrence: the same stream object handed to the extractor again must be treated the same
+        bio = io.BytesIO(data)
+        reps = []
+        for _ in range(2):
+            n = 0
+            try:
+                for _r in fn(bio, path="x" + ext):
+                    n += 1
+                reps.append((None, n))
+            except Exception as e:  # noqa
+                reps.append((type(e).__name__, n))
+        if reps[0] != reps[1] or reps[0] != (o1.cls, o1.n):
+            ctx.finding(key + ":repeat", f"{kind}: extracting the same stream again gives {reps[1]} after {reps[0]} (fresh stream: {o1!r})",
+                        {"kind": kind, "ext": ext, "input": data, "runs": reps})
+        if len(data) < 200000 and not (kind == "pdf" and "AES" in key):
+            self.sample.append((kind, key, ext, data))
         ctx.case((kind, key, expect_enc, len(data), hash(data) & 0xFFFFFFFF), True, kind=f"{kind}:{'enc' if expect_enc else 'plain'}")
         rep = {"kind": kind, "ext": ext, "input": data, "expected_encrypted": expect_enc,
                "extractor": repr(o1), "read_file": repr(o2)}
@@ -734,6 +779,8 @@ def zip_cases(ctx, cases, info, e2e):
     for ci in range(n_cases):
         k = rng.randint(1, 5)
         members = rng.sample(pool, k)
+        if rng.random() < 0.25:      # only members the library never hands to an extractor
+            members = [m for m in pool if m[0] in ("skip.bin", ".hidden.txt", "inner.zip")][:rng.randint(1, 3)]
         with_dir = rng.random() < 0.4
         bio = io.BytesIO()
         with zipfile.ZipFile(bio, "w") as z:
@@ -806,9 +853,19 @@ def sevenz_cases(ctx, cases, info, e2e):
               (b"\x06\xf1\x07\x01\x02", b"\x00"), (b"\x06\xf1", None), (b"\x06\xf1\x08\x01", None), (b"\x07\xf1\x07\x01", None),
               (b"\x00\x06\xf1\x07", None)]
     pool = [("a.txt", b"alpha text"), ("b.md", b"# beta"), ("c.csv", b"x,y\n1,2\n")]
-    for ci in range(ctx.n(50, 400)):
+    # member population: what the archive holds must not matter for "encrypted => rejected"
+    unsupported = [("scan.png", b"\x89PNG\r\n\x1a\n" + b"\0" * 20), ("tool.exe", b"MZ" + b"\0" * 30), ("backup.zip", b"PK\x05\x06" + b"\0" * 18),
+                   (".hidden.txt", b"h"), ("photo.jpg", b"\xff\xd8\xff\xd9"), ("inner.tar.gz", b"\x1f\x8b" + b"\0" * 16), ("lib.dll", b"MZ\0\0")]
+    for ci in range(ctx.n(70, 500)):
         k = rng.randint(1, 3)
-        members = pool[:k]
+        population = rng.choice(["supported", "supported", "unsupported-only", "unsupported-only", "mixed"])
+        if population == "supported":
+            members = pool[:k]
+        elif population == "unsupported-only":
+            members = rng.sample(unsupported, k)
+        else:
+            members = rng.sample(pool, 1) + rng.sample(unsupported, k - 1) if k > 1 else rng.sample(unsupported, 1)
+            rng.shuffle(members)
         fcs = []
         for _ in range(k):
             nc = rng.choice([1, 1, 2])
@@ -820,7 +877,7 @@ def sevenz_cases(ctx, cases, info, e2e):
         expect = aes_main or header == "aes"
         hdr = "None" if header == "plain" else ("(Some [[" + cb(W.LZMA if header == "lzma" else W.AES) + "]])")
         main = coq_list([coq_list([cb(c[0]) for c in cs]) for cs in fcs])
-        o = e2e.check(f"7z:{'header-' + header if header != 'plain' else 'plain-header'}:{'aes' if aes_main else 'noaes'}",
+        o = e2e.check(f"7z:{'header-' + header if header != 'plain' else 'plain-header'}:{'aes' if aes_main else 'noaes'}:members-{population}",
                       "7z", ax.read_archive, ".7z", data, expect, cli=(ci < 10))
         cases.append(f"C7z {{| sz_hdr := {hdr}; sz_main := {main} |}} {coq_bool(o.enc)}")
         info.append(("7z", header, repr(fcs), repr(o)))
@@ -1234,6 +1291,98 @@ def pdf_cases(ctx, cases, info, e2e):
     info.append(("pdf", "plain", "", False))
 
 
+# ============================================================================ fourth entry point: e-mail attachments
+def _eml(attachments, subject="c08") -> bytes:
+    from email.message import EmailMessage
+    m = EmailMessage()
+    m["From"], m["To"], m["Subject"], m["Date"] = "a@example.org", "b@example.org", subject, "Mon, 01 Jan 2024 10:00:00 +0000"
+    m.set_content("body text")
+    for name, data in attachments:
+        m.add_attachment(data, maintype="application", subtype="octet-stream", filename=name)
+    return m.as_bytes()
+
+
+def attachment_cases(ctx, cases, info):
+    """EmailContent.iterate_supported_attachments: an encrypted attachment of any kind at any position, and the
+    method invoked REPEATEDLY on the same object (count first / process later, retry after the error)."""
+    from sharepoint2text.parsing import router
+    from sharepoint2text.parsing.exceptions import ExtractionFileFormatNotSupportedError
+    from sharepoint2text.parsing.extractors.mail.eml_email_extractor import read_eml_format_mail
+    from sharepoint2text.parsing.extractors.mail.mbox_email_extractor import read_mbox_format_mail
+    rng = ctx.rng
+    enc_pool = [(os.path.basename(f), open(f, "rb").read()) for f in sorted(glob.glob(str(RES / "**" / "password_protected" / "*"), recursive=True))]
+    bio = io.BytesIO()
+    with zipfile.ZipFile(bio, "w") as z:
+        z.writestr("a.txt", b"alpha")
+    enc_pool.append(("flagged.zip", W.zip_patch(bio.getvalue(), b"a.txt", flag_or=1)))
+    enc_pool.append(("aes.7z", W.sevenz([("a.txt", b"alpha")], [[(W.AES, b"\x13\x00")]])))
+    plain_pool = [("note.txt", b"hello attachment"), ("data.csv", b"a,b\n1,2\n"), ("plain.zip", bio.getvalue()),
+                  ("doc.odt", open(str(RES / "open_office" / "sample_document.odt"), "rb").read()),
+                  ("blob.bin", b"\0\1\2\3"), ("broken.docx", b"PK\x03\x04 not a real docx"), ("page.html", b"<p>hi</p>")]
+
+    def classify(name, data):
+        try:
+            fn = router.get_extractor(name)
+        except ExtractionFileFormatNotSupportedError:
+            return "AtSkip", "AtSkip"      # application/octet-stream is not in MIME_TYPE_MAPPING
+        o = run_gen(fn, data, path=name)
+        if o.enc:
+            return f"(AtEnc {o.n})", "AtEnc"
+        if o.cls is None:
+            return f"(AtOk {o.n})", "AtOk"
+        return f"(AtFail {o.n})", "AtFail"
+    cls_cache = {}
+    mails = []
+    for _ in range(ctx.n(30, 200)):
+        k = rng.randint(1, 4)
+        atts = [rng.choice(plain_pool) for _ in range(k)]
+        if rng.random() < 0.75:
+            atts[rng.randrange(k)] = rng.choice(enc_pool)
+        mails.append(atts)
+    for e in enc_pool:                     # every kind alone and behind a plain one
+        mails.append([e])
+        mails.append([plain_pool[0], e, plain_pool[1]])
+    for atts in mails:
+        terms, kinds = [], []
+        for name, data in atts:
+            if name not in cls_cache:
+                cls_cache[name] = classify(name, data)
+            terms.append(cls_cache[name][0])
+            kinds.append(cls_cache[name][1])
+        expect_enc = "AtEnc" in kinds
+        raw = _eml(atts)
+        for container, reader, blob in (("eml", read_eml_format_mail, raw),
+                                        ("mbox", read_mbox_format_mail, b"From a@example.org Mon Jan  1 10:00:00 2024\n" + raw + b"\n")):
+            if container == "mbox" and rng.random() < 0.6:
+                continue
+            try:
+                mail = list(reader(io.BytesIO(blob), path="m." + container))[0]
+            except Exception as e:  # noqa
+                ctx.count(f"attachment-mail-unparsed:{type(e).__name__}")
+                continue
+            if len(mail.attachments) != len(atts):
+                ctx.count("attachment-count-differs(harness)")
+                continue
+            for call in (1, 2, 3):
+                n, enc, other = 0, False, None
+                try:
+                    for _ in mail.iterate_supported_attachments():
+                        n += 1
+                except Exception as e:  # noqa
+                    enc = type(e).__name__ == "ExtractionFileEncryptedError"
+                    other = None if enc else type(e).__name__
+                ctx.case(("att", container, tuple(a[0] for a in atts), call), True,
+                         kind=f"attachments:{'enc' if expect_enc else 'plain'}:call{call}")
+                cases.append(f"CAtt {coq_list(terms)} {n} {coq_bool(enc)}")
+                info.append(("attachments", container, [a[0] for a in atts], f"call {call}: n={n} enc={enc}"))
+                if other or enc != expect_enc:
+                    which = next((a[0] for a, k in zip(atts, kinds) if k == "AtEnc"), None)
+                    ctx.finding(f"attachment-entry:{container}:invocation-{'first' if call == 1 else 'repeated'}",
+                                f"iterate_supported_attachments, invocation {call}, attachments {[a[0] for a in atts]}: "
+                                f"{'raised ' + other if other else ('encrypted attachment ' + str(which) + ' not rejected (' + str(n) + ' results, no error)' if expect_enc else 'plain attachments rejected as encrypted')}",
+                                {"mail": blob, "container": container, "attachments": [a[0] for a in atts], "invocation": call})
+
+
 # ============================================================================ protected fixtures
 def fixture_cases(ctx, e2e):
     import sharepoint2text
@@ -1279,10 +1428,11 @@ def run(ctx):
         "C08_ppt_iff", "C08_doc_fib_flag", "C08_odf_sound", "C08_odf_complete", "C08_zip_sound_any_member", "C08_zip_complete",
         "C08_7z_needs_password_iff", "C08_7z_sound", "C08_7z_complete", "C08_epub_iff", "C08_pdf_iff", "C08_reject_before_yield",
         "C08_pkcs7_roundtrip", "C08_pkcs7_full_block", "C08_pkcs7_padded_length", "C08_pkcs7_rejects_bad_byte",
-        "C08_ppt_token_sound_refuted", "C08_ppt_sound_partial", "C08_ppt_token_aware_iff"])
+        "C08_ppt_token_sound_refuted", "C08_ppt_sound_partial", "C08_ppt_token_aware_iff", "C08_reject_never_silent",
+        "C08_attachment_encrypted_any_position", "C08_attachment_complete"])
     ctx.prove("C08/Inst.v", ["Gen/C08Skeletons.vo", "Gen/C08Tables.vo", "C08/Flow.vo", "C08/Model.vo", "C08/Corr.vo"], expected=[
         "C08_all_guarded", "C08_no_result_before_rejection", "C08_skeleton_count", "C08_constants",
-        "C08_zip_pass1_delivers_nothing", "C08_zip_prefix_has_the_guard"])
+        "C08_zip_pass1_delivers_nothing", "C08_zip_prefix_has_the_guard", "C08_rejected_never_silent"])
 
     cases, info = [], []
     with tempfile.TemporaryDirectory(dir="/var/tmp", prefix="c08-") as td:
@@ -1294,7 +1444,8 @@ def run(ctx):
                       ("doc", lambda: doc_cases(ctx, cases, info, e2e)), ("odf", lambda: odf_cases(ctx, cases, info, e2e)),
                       ("zip", lambda: zip_cases(ctx, cases, info, e2e)), ("7z", lambda: sevenz_cases(ctx, cases, info, e2e)),
                       ("epub", lambda: epub_cases(ctx, cases, info, e2e)), ("pdf", lambda: pdf_cases(ctx, cases, info, e2e)),
-                      ("pkcs7+cbc", lambda: pkcs7_cases(ctx, cases, info)), ("pdf-boundary", lambda: pdf_boundary_cases(ctx, e2e))):
+                      ("pkcs7+cbc", lambda: pkcs7_cases(ctx, cases, info)), ("attachments", lambda: attachment_cases(ctx, cases, info)),
+                      ("env-sweep", lambda: env_cases(ctx, e2e)), ("pdf-boundary", lambda: pdf_boundary_cases(ctx, e2e))):
             t0 = time.time()
             f()
             timing[nm] = round(time.time() - t0, 1)
